@@ -881,7 +881,9 @@ static void mps_set_bound (
 	else if (!strcmp (bndtype, "UI"))
 	{
 		msg = EGLPNUM_TYPENAME_ILLraw_set_upperBound (lp, colind, bnd);
-		if (msg == NULL)
+		/* the message may be a mere warning ("0.0 upper bound fixes variable"):
+		 * the column is an integer column whenever the bound was taken */
+		if (msg == NULL || lp->ubind[colind])
 		{
 			lp->intmarker[colind] = 1;
 		}
